@@ -138,7 +138,7 @@ Print Assumptions C20_json_tail_is_cleaned.
 Theorem C20_url_userinfo_removed :
   forall pre userinfo post : text,
   contains [58; 47; 47] pre = false ->
-  existsb (fun c => (c =? 64) || (c =? 10)) userinfo = false ->
+  existsb (fun c => (c =? 64) || ui_stop c) userinfo = false ->
   url_step (pre ++ [58; 47; 47] ++ userinfo ++ [64] ++ post) = pre ++ C20_url_replacement ++ url_step post.
 Proof. exact url_hides. Qed.
 Print Assumptions C20_url_userinfo_removed.
@@ -259,7 +259,7 @@ Theorem C20_gcl_text_message_is_sanitized :
      gcl_text_event digest (Some o) t = GDict (clean_record_model digest false o)) /\
   (forall (digest : text -> text) (pre userinfo post : text),
      contains [58; 47; 47] pre = false ->
-     existsb (fun c => (c =? 64) || (c =? 10)) userinfo = false ->
+     existsb (fun c => (c =? 64) || ui_stop c) userinfo = false ->
      gcl_text_event digest None (pre ++ [58; 47; 47] ++ userinfo ++ [64] ++ post) =
      GText (pre ++ C20_gcl_url_replacement ++ gcl_url_step post)).
 Proof. exact gcl_text_sanitized. Qed.
@@ -271,12 +271,23 @@ Print Assumptions C20_gcl_text_message_is_sanitized.
 Theorem C20_gcl_report_of_url_text_has_no_userinfo :
   forall (n : nat) (pre userinfo post : text),
   contains [58; 47; 47] pre = false ->
-  existsb (fun c => (c =? 64) || (c =? 10)) userinfo = false ->
+  existsb (fun c => (c =? 64) || ui_stop c) userinfo = false ->
   report_obj true (WText (pre ++ [58; 47; 47] ++ userinfo ++ [64] ++ post) None) n =
   [(T "message", JStr (T "The following message was suppressed " ++ dec_of_nat n ++ T " time(s)"));
    (T "suppressed", JStr (pre ++ C20_gcl_url_replacement ++ gcl_url_step post))].
 Proof. exact gcl_report_url_text. Qed.
 Print Assumptions C20_gcl_report_of_url_text_has_no_userinfo.
+
+(* round 6: copy.deepcopy (or a pickle round trip) of an object is a new object with the value the
+   original has at that moment (whatever fuel it is read with), so every theorem about calls
+   applies to the copy with the original's value. *)
+Theorem C20_deep_copy_has_the_value_of_the_original :
+  forall (h : heap) (a : nat) (c : hcell) (g : nat),
+  nth_error h a = Some c ->
+  heap_step h (OCopy a true) = h ++ [own_cell (S (List.length h)) h c] /\
+  unfold (S g) (heap_step h (OCopy a true)) (HRef (List.length h)) = unfold (S (S (List.length h))) h (HRef a).
+Proof. exact deep_copy_value. Qed.
+Print Assumptions C20_deep_copy_has_the_value_of_the_original.
 
 (* Non-vacuity. *)
 Definition ex_record : obj :=
@@ -312,7 +323,7 @@ Proof. vm_compute. reflexivity. Qed.
 
 Example C20_nonvacuous_url :
   contains [58; 47; 47] (T "connect postgres") = false /\
-  existsb (fun c => (c =? 64) || (c =? 10)) (T "alice:s3cret") = false /\
+  existsb (fun c => (c =? 64) || ui_stop c) (T "alice:s3cret") = false /\
   url_step (T "connect postgres://alice:s3cret@db/x") = T "connect postgres" ++ C20_url_replacement ++ T "db/x".
 Proof. repeat split; vm_compute; reflexivity. Qed.
 
@@ -376,3 +387,29 @@ Proof. repeat split; vm_compute; reflexivity. Qed.
 Example C20_nonvacuous_gcl_url :
   gcl_text_event (fun _ => []) None (T "connect postgres://alice:s3cret@db/x") = GText (T "connect postgres://<redacted>db/x").
 Proof. vm_compute. reflexivity. Qed.
+
+(* round 6: copies.  A shallow and a deep copy of the connection object give the output of the
+   original; after the original is mutated in place the deep copy (object 4) still shows the old
+   value, the payload that refers to the original shows the new one. *)
+Example C20_nonvacuous_copies :
+  sess_run (fun _ => T "0a1b2c3d") ex_heap
+    [OCopy 2 false; OCopy 2 true; OClean 3 false; OClean 4 false;
+     OSet 0 (T "api_token") (HLeaf (JStr (T "t0k"))); OClean 4 false; OClean 3 false] =
+  let old := SItems [(T "primary", T "{'host': 'db', 'password': '<redacted:0a1b2c3d>'}");
+                     (T "replica", T "{'host': 'db', 'password': '<redacted:0a1b2c3d>'}");
+                     (T "targets", T "[{'host': 'db', 'password': '<redacted:0a1b2c3d>'}, {'host': 'db', 'password': '<redacted:0a1b2c3d>'}]");
+                     (T "history", T "{'n': '1'}")] in
+  [SNone; SNone; old; old; SNone; old;
+   SItems [(T "primary", T "{'host': 'db', 'password': '<redacted:0a1b2c3d>', 'api_token': '<redacted:0a1b2c3d>'}");
+           (T "replica", T "{'host': 'db', 'password': '<redacted:0a1b2c3d>', 'api_token': '<redacted:0a1b2c3d>'}");
+           (T "targets", T "[{'host': 'db', 'password': '<redacted:0a1b2c3d>', 'api_token': '<redacted:0a1b2c3d>'}, {'host': 'db', 'password': '<redacted:0a1b2c3d>', 'api_token': '<redacted:0a1b2c3d>'}]");
+           (T "history", T "{'n': '1'}")]].
+Proof. vm_compute. reflexivity. Qed.
+
+(* F-C20-12 (fixed by 7fc0b03; formerly C20_url_step_overreach_refuted): a URL without user-info is
+   left alone and the members between it and a later URL with user-info survive. *)
+Example C20_url_without_userinfo_is_left_alone :
+  url_step (T "{""docs"": ""http://example.com/"", ""n"": ""visible"", ""dsn"": ""postgres://alice:s3cret@db/x""}") =
+  T "{""docs"": ""http://example.com/"", ""n"": ""visible"", ""dsn"": ""postgres" ++ C20_url_replacement ++ T "db/x""}" /\
+  url_step (T "see http://example.com/a?b=1 and 'x@y'") = T "see http://example.com/a?b=1 and 'x@y'".
+Proof. split; vm_compute; reflexivity. Qed.
